@@ -194,7 +194,7 @@ Proof.
     assert (Hhmo : holders mo = holders m) by (destruct m; reflexivity).
     split.
     + eapply ginv_geq; [apply (install_h s' _ k mo m' P1 Hm'); gs; auto|].
-      * intros r0. rewrite Hhm', Hhmo, Hhol, !occ_app. specialize (P3 r0). lia.
+      * intros r0. rewrite Hhm', Hhmo, Hhol, !occ_app. specialize (P3 r0). rewrite <- !Nat.add_assoc, P3. reflexivity.
       * intros r0 Hi. destruct (Hpre1 r0 Hi) as [X1 [X2 [l0 [X3 [X4 X5]]]]]. rewrite Hhmo. repeat split; auto.
         destruct Hi as [<-|[]]. exists l1. repeat split; try exact P6; congruence.
       * intros c0 Hc0. assert (Hc1 : c0 = c) by (destruct m; cbn in *; congruence). subst c0.
